@@ -284,6 +284,22 @@ func VH_udp_rearm() {
 	vapi.Assert(el <= gap+to+time.Microsecond, "the replaced UDP deadline fired late")
 }
 
+// VH_udp_after_match: the router disarms the deadline after a match; a handler that
+// keeps reading a silent client is then ended by the idle timeout (EOF after 30 s),
+// not by the matching deadline.
+func VH_udp_after_match() {
+	to := timeouts()
+	pc := layer4.VerifNewPacketConn(nullPC{}, &net.UDPAddr{IP: net.IP{10, 0, 0, 2}, Port: 5353})
+	t0 := vapi.Elapsed()
+	_ = pc.SetReadDeadline(time.Now().Add(to))
+	_ = pc.SetReadDeadline(time.Time{}) // matched
+	_, err := pc.Read(make([]byte, 16))
+	el := time.Duration(vapi.Elapsed() - t0)
+	vapi.Cover("udp handler read ended")
+	vapi.Assert(err == io.EOF, "a UDP handler's read after matching was ended by the matching deadline")
+	vapi.Assert(el >= 30*time.Second && el <= 30*time.Second+time.Microsecond, "a UDP handler's read on a silent client must end at the idle timeout")
+}
+
 // VH_udp_data: data that is already queued is delivered even with a deadline armed.
 func VH_udp_data() {
 	to := timeouts()
@@ -302,7 +318,7 @@ func VH_udp_data() {
 func init() {
 	for name, f := range map[string]func(){
 		"VH_tcp": VH_tcp, "VH_server": VH_server, "VH_udp_deadline": VH_udp_deadline, "VH_udp_data": VH_udp_data,
-		"VH_tcp_after_match": VH_tcp_after_match, "VH_udp_rearm": VH_udp_rearm,
+		"VH_tcp_after_match": VH_tcp_after_match, "VH_udp_rearm": VH_udp_rearm, "VH_udp_after_match": VH_udp_after_match,
 	} {
 		vapi.Register("c05."+name, f)
 	}
